@@ -609,13 +609,23 @@ impl Ctx {
 	}
 }
 
+/// At most `n` characters of `s` on one line: control characters (NUL, newlines, ESC, ...) are written as
+/// `\u{..}` escapes so that the report lines stay plain text for line-oriented tools (a raw NUL makes `grep`
+/// treat the whole output as binary and hide the VIOLATION lines).
 pub fn truncate(s: &str, n: usize) -> String {
-	if s.chars().count() <= n {
-		s.to_string()
-	} else {
-		let t: String = s.chars().take(n).collect();
-		format!("{t}…")
+	let mut out = String::new();
+	for (i, c) in s.chars().enumerate() {
+		if i >= n {
+			out.push('…');
+			break;
+		}
+		if c.is_control() || c == '\u{2028}' || c == '\u{2029}' {
+			out.push_str(&format!("\\u{{{:x}}}", c as u32));
+		} else {
+			out.push(c);
+		}
 	}
+	out
 }
 
 fn progress_path(prop: &str) -> PathBuf {
